@@ -2,6 +2,7 @@ use crate::analysis::type_resolver::TypeResolver;
 use crate::models::EventInfo;
 use std::collections::HashMap;
 use std::path::Path;
+use syn::ext::IdentExt;
 use syn::{Expr, ExprMethodCall, File as SynFile, FnArg, Lit, Pat, Type};
 
 /// Parser for Tauri event emissions
@@ -99,9 +100,16 @@ impl EventParser {
                 Some(format!("({})", elems?.join(", ")))
             }
             Type::Path(type_path) => {
-                // Get the last segment of the path (the actual type name)
+                // The whole path (a type mapping may be keyed by it, the resolver strips it
+                // otherwise); `r#Kind` names the type `Kind`
                 let segment = type_path.path.segments.last()?;
-                let name = segment.ident.to_string();
+                let name = type_path
+                    .path
+                    .segments
+                    .iter()
+                    .map(|s| s.ident.unraw().to_string())
+                    .collect::<Vec<_>>()
+                    .join("::");
                 if let syn::PathArguments::AngleBracketed(args) = &segment.arguments {
                     let inner: Option<Vec<String>> = args
                         .args
